@@ -359,15 +359,19 @@ PROPS["C16"] = {
     "lean": "Props.C16", "domains": [{"name": "decode", "env": {"TASK_X_REMOTE_TASKFILES": "1"}}],
     "trusted": ["yaml.v3, chroma, go-task/template and mvdan/sh themselves do not panic (every byte sequence reaches Task only through them); "
                 "yaml.v3 mapping nodes have an even number of children; the typed extractor /verif/extract2 enumerates index / slice / unchecked "
-                "assertion / Must* / panic expressions (nil-pointer dereferences and division are not enumerable syntactically: the decode "
-                "correspondence is what looks for those)"],
-    "assumptions": ["partial by scope: the theorem covers Task's own panic-capable expressions on the load/list/compile/resolve path; sh: variables "
-                    "are not evaluated by the harness (FastCompiledTask), remote includes are offline"],
+                "assertion / Must* / panic expressions and loops that read a field through the element of a list of pointers without a "
+                "nil guard (other nil-pointer dereferences and division are not enumerable syntactically: the decode correspondence is what "
+                "looks for those)"],
+    "assumptions": ["partial by scope: the theorem covers Task's own panic-capable expressions on the load/list/compile/resolve path and, for running, "
+                    "the guards of RunTask / runCommand under --dry; documents mutated from real Taskfiles are compiled and listed but not run "
+                    "(their sh: / precondition / status commands are arbitrary), remote includes are offline"],
     "level_text": "Theorem (decide over the regenerated, typed table of every panic-capable expression on the path): each site is discharged by a "
                   "recorded reason, no stale reasons; lemmas for the two non-obvious reasons (yaml children come in pairs; snippet bounds stay within "
-                  "both line lists). Termination from the total Lean models of load/merge and C07_terminates_all. Tie: node-shape grammar at every "
+                  "both line lists); compiled_lists_nil_free: every list-of-pointers field of the compiled task is filtered of nil entries or is the "
+                  "reviewed pass-through field whose readers all guard. Termination from the total Lean models of load/merge and C07_terminates_all. Tie: node-shape grammar at every "
                   "schema position, mutated real Taskfiles with CR/NEL/LS terminators, metacharacter names, run in a worker process through Setup / "
-                  "ListTasks / FastCompiledTask / GetTask; a panic (also in goroutines Task starts) or a time-out is a violation.",
+                  "ListTasks / FastCompiledTask / GetTask and (grammar documents) Run --dry, Run --dry --force --yes, Run --summary, Status of every task; a "
+                  "panic (also in goroutines Task starts) or a time-out is a violation.",
     "level_note": "Trusted: Lean kernel; extractor; third-party parsers; harness worker supervision.",
 }
 PROPS["C18"] = {
